@@ -116,7 +116,9 @@ class glm:
             nvbeta = np.rollaxis(nvbeta, axis, ndims + 1) # shape = X, p, p
         if dim == 1:
             vcon = np.inner(c, np.inner(c, nvbeta))
-            vcon = vcon.squeeze() * s2
+            # one variance per voxel, on the voxel grid of the effect: fit()
+            # squeezed s2, which mis-aligns grids with singleton axes
+            vcon = (vcon.squeeze() * s2).reshape(B.shape[:-1])
         else:
             vcon = np.dot(c, np.inner(nvbeta, c)) # q, X, q or q, q
             if 'nvbeta' not in self._constants:
